@@ -84,9 +84,50 @@ IDIOMS = [
     ("empty-body-still-rejects-literal-target", ("C20", "C13", "C07"), 'print("before")\nfor 1 in [0] {\n}\nprint("not reached")\n', "before\n", "103", ""),
     ("self-assignment-of-undeclared-name", ("C20",), 'print("before")\nretries = retries\nprint("not reached")\n', "before\n", "103", "'retries' is not defined"),
     ("self-assignment-keeps-value", ("C20", "C05"), "x := [1]\ny := x\nx = x\nprint(x === y)\n", "true\n", "0", ""),
+    ("counter-with-helper-in-its-scope", ("C20", "C04"), 'fn make_counter() {\n    n := 0\n    fn step() {\n        return 1\n    }\n    return fn () {\n        n += step()\n        return n\n    }\n}\nc := make_counter()\nprint(c())\nprint(c())\n'
+     'get := null\n{\n    total := 10\n    fn tick() {\n        total += 1\n    }\n    tick()\n    get = fn () {\n        return total\n    }\n}\nprint(get())\n', "1\n2\n11\n", "0", ""),
+    ("closures-made-in-a-while-keep-their-own-locals", ("C05", "C04", "C07"), 'getters := []\ni := 0\nwhile i < 2 {\n    row := [i]\n    getters += [fn () {\n        return row\n    }]\n    i += 1\n}\na := getters[0]()\nb := getters[1]()\nprint(a === b)\na[0] = 99\nprint(a)\nprint(b)\n',
+     "false\n" + _l(99) + _l(1), "0", ""),
+    ("closures-made-in-a-for-keep-their-own-locals", ("C05", "C04", "C07"), 'getters := []\nfor [i, v] in [10, 20] {\n    row := [v]\n    getters += [fn () {\n        return row\n    }]\n}\na := getters[0]()\nb := getters[1]()\nprint(a === b)\na[0] = 99\nprint(b)\n',
+     "false\n" + _l(20), "0", ""),
+    ("nested-loops-over-the-same-list", ("C07", "C05"), 'xs := ["a", "b", "c"]\nfor [i, x] in xs {\n    xs[i] = x + x\n    line := ""\n    for [j, y] in xs {\n        if j > i {\n            break\n        }\n        line = line + " " + y\n    }\n    print(x + ":" + line)\n}\n',
+     "a: aa\nb: aa bb\nc: aa bb cc\n", "0", ""),
+    ("inner-loop-takes-its-own-snapshot", ("C07",), 'xs := [1, 2]\nfor [i, x] in xs {\n    for [j, y] in xs {\n        if i == 0 && j == 0 {\n            xs[1] = 9\n        }\n        print([x, y])\n    }\n}\n',
+     _l(1, 1) + _l(1, 2) + _l(2, 1) + _l(2, 9), "0", ""),
+    ("collector-excludes-a-computed-key", ("C13", "C12"), 'fn without(obj, key) {\n    {key: _, ..rest} := obj\n    return rest\n}\nuser := {"name": "ann", "password": "x", "role": "admin"}\nprint(without(user, "password"))\nfield := "role"\n{field: role, ..others} := user\nprint(role)\nprint(others)\n',
+     '{\n    "name": ann,\n    "role": admin,\n}\nadmin\n{\n    "name": ann,\n    "password": x,\n}\n', "0", ""),
+    ("whole-slice-of-a-non-sequence", ("C16", "C11"), 'n := 5\nprint("before")\nprint(n[:])\n', "before\n", "103", "range-indexed"),
+    ("whole-slice-of-an-object", ("C16", "C11"), 'o := {"a": 1}\nprint("before")\nprint(o[:])\n', "before\n", "103", "range-indexed"),
+    ("whole-slice-of-null", ("C16",), 'print("before")\nx := null\nprint(x[:])\n', "before\n", "103", "range-indexed"),
+    ("identity-of-builtins-is-a-type-error", ("C16", "C10"), 'p := print\nprint("before")\nprint(p === print)\n', "before\n", "103", "'==='"),
+    ("list-pattern-against-a-string", ("C13", "C16"), 'print("before")\n[a, b] := "ab"\nprint(a)\n', "before\n", "103", "string"),
+    ("rest-parameter-is-a-fresh-list", ("C13", "C05", "C14"), 'fn zero(..rest) {\n    for [i, v] in rest {\n        rest[i] = 0\n    }\n    return rest\n}\nnums := [1, 2, 3]\nr := zero(nums..)\nprint(nums)\nprint(r === nums)\n', _l(1, 2, 3) + "false\n", "0", ""),
+    ("range-as-a-binding-target", ("C20", "C13", "C02"), 'print("before")\n1 .. 3 := [1, 2]\n', "before\n", "103", "range"),
+    ("long-else-if-chain", ("C07",), 'fn grade(n) {\n    if n >= 90 {\n        return "A"\n    } else if n >= 80 {\n        return "B"\n    } else if n >= 70 {\n        return "C"\n    } else if n >= 60 {\n        return "D"\n    } else {\n        return "F"\n    }\n}\nprint(grade(95))\nprint(grade(85))\nprint(grade(75))\nprint(grade(65))\nprint(grade(5))\n', "A\nB\nC\nD\nF\n", "0", ""),
+    ("subtracting-the-lowest-integer", ("C06", "C02"), 'low := -9223372036854775807 - 1\nprint(-1 - low)\nprint(0 - (low + 1))\n', "9223372036854775807\n9223372036854775807\n", "0", ""),
+    ("print-order-with-mixed-case-keys", ("C12", "C19"), 'o := {"beta": 1, "Alpha": 2, "_id": 3, "Zeta": 4}\nfor [k, v] in o {\n    print(k)\n}\nprint(o)\n', 'Alpha\nZeta\n_id\nbeta\n{\n    "Alpha": 2,\n    "Zeta": 4,\n    "_id": 3,\n    "beta": 1,\n}\n', "0", ""),
+    ("numeric-looking-keys-in-text-order", ("C12", "C07"), 'o := {"9": 1, "10": 2, "100": 3}\nfor [k, v] in o {\n    print(k)\n}\n', "10\n100\n9\n", "0", ""),
+    ("sum-with-an-empty-list-is-a-new-list", ("C05", "C11"), 'defaults := [1]\nb := defaults + []\nc := [] + defaults\nprint(b === defaults)\nprint(c === defaults)\nb[0] = 5\nprint(defaults)\nxs := [2]\nys := xs\nxs += []\nprint(xs === ys)\n', "false\nfalse\n" + _l(1) + "false\n", "0", ""),
     ("empty-slot-is-a-reported-error", ("C03", "C02", "C17"), 'print("start")\nprint($"a${}b")\n', "start\n", "103", "t.sd:2:"),
     ("blank-slot-is-a-reported-error", ("C03", "C02"), 'print("start")\nprint($"a${ }b")\n', "start\n", "103", "t.sd:2:"),
 ]
+
+
+def _big_literals():
+    """object literals and spreads with more than a handful of entries and repeated keys: the later entry wins, at every size"""
+    out = []
+    for n in (8, 21, 24, 33, 64):
+        keys = [f"k{i:02d}" for i in range(n)]
+        first = ", ".join(f'"{k}": "old"' for k in keys)
+        second = ", ".join(f'"{k}": "new"' for k in keys[1::2])
+        want_o = "".join(("new" if i % 2 else "old") + "\n" for i in range(n))
+        out.append((f"literal-later-entry-wins-{n}", ("C12",), f'o := {{{first}, {second}}}\nfor [k, v] in o {{\n    print(v)\n}}\n', want_o, "0", ""))
+        out.append((f"spread-later-entry-wins-{n}", ("C12", "C13"), f'd := {{{first}}}\ne := {{{second}}}\no := {{d.., e..}}\nfor [k, v] in o {{\n    print(v)\n}}\np := {{e.., d..}}\nprint(p.k01)\nprint(p == d)\n',
+                    want_o + "old\ntrue\n", "0", ""))
+    return out
+
+
+IDIOMS += _big_literals()
 
 
 def all_idioms():
